@@ -94,7 +94,7 @@ def generate(seed: int, tier: str = "quick") -> dict:
     nb = len(labels)
     close_idx = [max(i for i, g in enumerate(grid) if g == lab) for lab in labels]
 
-    ns = rs.choice([2, 2, 2, 3, 3, 4, 5, 6])
+    ns = rs.choice([2, 2, 2, 3, 3, 4, 5, 6, 9, 10])  # 9, 10: more than 4 x 2 workers (the chunking rule of Pool.map)
     threads = rs.choice([1, 1, 1, 2, 2, 2, 3, 3, 4, 5, 6])
     n_noisy = rf.choice([0, 0, 1, 1, 1, 2])
     noisy = set(rf.sample(range(ns), min(n_noisy, ns)))
@@ -127,6 +127,19 @@ def _finish(seed, tier, world, strategies, program, ns, threads, noisy, failing,
     }
     real_pool = tier == "thorough" and threads > 1 and rs.random() < 0.03
     faults = []
+    rr = R.sub(seed, "rounds")
+    if ns >= 2 and rr.random() < 0.22:
+        # several consecutive manager runs over the SAME configuration and data objects in one process. At most one of
+        # them may take the pool path (multiprocessing's start method can be set once per process), so with threads > 1
+        # every run but the last has a single strategy (which the manager runs in-process)
+        if threads == 1:
+            cuts = sorted(rr.sample(range(1, ns), min(ns - 1, rr.choice([1, 1, 2]))))
+            sizes = [b - a for a, b in zip([0] + cuts, cuts + [ns])]
+        else:
+            singles = rr.choice([1, 1, 2]) if ns >= 3 else 1
+            sizes = [1] * singles + [ns - singles]
+        sched["rounds"] = sizes
+        faults.append({"kind": "consecutive_manager_runs"})
     if order != sorted(order):
         faults.append({"kind": "order_perm"})
     if threads == 1:
@@ -531,8 +544,14 @@ def _members(scenario, idxs, outdir, frames):
     return out
 
 
-def _session(scenario, idxs, threads, outdir, real_pool=False, frames=None):
-    """Runs in a fresh fork: build the world, run BacktestManager over the given strategies, leave session.pkl."""
+def _round_sizes(sched, n):
+    sizes = [int(x) for x in (sched.get("rounds") or []) if int(x) > 0]
+    return sizes if sizes and sum(sizes) == n else [n]
+
+
+def _session(scenario, idxs, threads, outdir, real_pool=False, frames=None, rounds=None):
+    """Runs in a fresh fork: build the world, run BacktestManager over the given strategies (in one manager run, or in
+    several consecutive manager runs over the SAME configuration and data objects), leave session.pkl."""
     os.makedirs(outdir, exist_ok=True)
     os.chdir(outdir)  # Actuator's RuntimeError path calls save_result('./')
     world = scenario["world"]
@@ -546,12 +565,13 @@ def _session(scenario, idxs, threads, outdir, real_pool=False, frames=None):
     old_out, old_err = sys.stdout, sys.stderr
     sys.stdout, sys.stderr = io.StringIO(), io.StringIO()
     try:
-        mgr = BacktestManager(config=config, data=data, strategies=strategies, backtest_config=BacktestConfig(interval=world.get("interval", "1min")), threads=threads)
+        sizes = rounds or [len(strategies)]
+        at, r = 0, 0
         try:
-            if real_pool:
-                mgr.run()
-            else:
-                with seam:
+            with (seam if not real_pool else _Null()):
+                for r, size in enumerate(sizes):
+                    part, at = strategies[at:at + size], at + size
+                    mgr = BacktestManager(config=config, data=data, strategies=part, backtest_config=BacktestConfig(interval=world.get("interval", "1min")), threads=threads)
                     mgr.run()
         except SP.SimPoolError:
             raise
@@ -561,7 +581,7 @@ def _session(scenario, idxs, threads, outdir, real_pool=False, frames=None):
             import traceback
 
             tb = traceback.extract_tb(e.__traceback__)
-            info["exception"] = {"type": type(e).__name__, "msg": str(getattr(e, "message", e))[:200], "where": [f"{os.path.basename(f.filename)}:{f.name}" for f in tb[-3:]]}
+            info["exception"] = {"type": type(e).__name__, "msg": str(getattr(e, "message", e))[:200], "where": [f"{os.path.basename(f.filename)}:{f.name}" for f in tb[-3:]], "round": r}
         info["stderr"] = sys.stderr.getvalue()[-4000:]
     finally:
         sys.stdout, sys.stderr = old_out, old_err
@@ -569,14 +589,23 @@ def _session(scenario, idxs, threads, outdir, real_pool=False, frames=None):
     info["pools"] = len(seam.pools)
     info["worker_pids"] = [list(p.worker_pids) for p in seam.pools]
     info["executed"] = seam.executed()
+    info["task_of"] = seam.task_of()
     with open(os.path.join(outdir, "session.pkl"), "wb") as f:
         pickle.dump(info, f)
 
 
-def _run_session(scenario, idxs, threads, outdir, frames=None):
+class _Null:
+    def __enter__(self):
+        return self
+
+    def __exit__(self, *a):
+        return False
+
+
+def _run_session(scenario, idxs, threads, outdir, frames=None, rounds=None):
     os.makedirs(outdir, exist_ok=True)
     err = os.path.join(outdir, "harness.err")
-    code = SP.forked(lambda: _session(scenario, idxs, threads, outdir, False, frames), SESSION_TIMEOUT_S, err)
+    code = SP.forked(lambda: _session(scenario, idxs, threads, outdir, False, frames, rounds), SESSION_TIMEOUT_S, err)
     if code != 0:
         msg = ""
         if os.path.exists(err):
@@ -607,7 +636,7 @@ def _real_pool_session(scenario, outdir):
     env = dict(os.environ)
     env["PYTHONHASHSEED"] = "0"
     verif = os.path.dirname(os.path.dirname(os.path.dirname(os.path.abspath(__file__))))
-    code = "import sys,json; from dsim.props import c19; sc=json.load(open(sys.argv[1])); c19._session(sc, sc['sched']['order'], sc['sched']['threads'], sys.argv[2], real_pool=True)"
+    code = "import sys,json; from dsim.props import c19; sc=json.load(open(sys.argv[1])); c19._session(sc, sc['sched']['order'], sc['sched']['threads'], sys.argv[2], real_pool=True, rounds=c19._round_sizes(sc['sched'], len(sc['sched']['order'])))"
     p = subprocess.run([sys.executable, "-c", code, sc_path, outdir], cwd=verif, env=env, capture_output=True, text=True, timeout=SESSION_TIMEOUT_S)
     if p.returncode != 0:
         raise HarnessError("real-pool session failed: " + p.stderr[-1200:])
@@ -716,7 +745,7 @@ def execute(scenario):
             _account(res, recs.get(i), k)
             res.event("alone", strategies[i]["name"], digest(_public(recs[i])) if i in recs else None, (info["exception"] or {}).get("type"))
         # ---- the batch under the schedule
-        info, got = _run_session(scenario, order, threads, os.path.join(root, "mgr"), frames)
+        info, got = _run_session(scenario, order, threads, os.path.join(root, "mgr"), frames, _round_sizes(sched, len(order)))
         for e in info["log"]:
             res.event("sched", *e)
         real = _real_pool_session(scenario, os.path.join(root, "real")) if scenario.get("real_pool") and threads > 1 and ns > 1 else None
@@ -769,31 +798,51 @@ def _judge(res, scenario, order, threads, alone, alone_info, info, got, k):
     if any(v >= 2 for v in per_worker.values()):
         res.count("probe:same_worker_ran_ge2")
         res.count("fault:worker_reuse")
-    if pool_path and any(executed.get(j, (j, 0))[0] != j for j in range(ns)):
+    if pool_path and any(w != c for c, (w, kth) in executed.items()):
         res.count("fault:assignment_perm")
+    if any(e[0] == "map" for e in info["log"]):
+        res.count("probe:pool_map_chunks")
     if pool_path and any(e[0] == "assign" and e[5] == 0 for e in info["log"]):
         res.count("probe:task_waited_for_a_busy_pool")
     if "NoneType: None" in (info.get("stderr") or ""):
         res.count("probe:inprocess_e_callback_called_with_None")
-    aborted = (not pool_path) and info["exception"] is not None
+    sizes = _round_sizes(scenario.get("sched", {}), ns)
+    round_of, pos_of, r0 = [], [], 0
+    for r, size in enumerate(sizes):
+        round_of += [r] * size
+        pos_of += list(range(size))
+    pool_round = {r for r, size in enumerate(sizes) if size > 1 and threads > 1}  # the manager's own rule
+    if len(pool_round) > 1:
+        raise HarnessError("more than one pool round in a session (set_start_method is once per process)")
+    if len(sizes) > 1:
+        res.count("fault:consecutive_manager_runs")
+    exc_round = (info["exception"] or {}).get("round")
+    aborted = info["exception"] is not None and exc_round not in pool_round
     left_open = False
     any_diff = False
     for j, i in enumerate(order):
         name = strategies[i]["name"]
         rec = got.get(i)
         _account(res, rec, k)
-        if pool_path:
-            if j not in executed:
+        in_pool = round_of[j] in pool_round
+        call = pos_of[j]  # its number among the calls submitted to the (one) pool
+        earlier_rounds = [order[j2] for j2 in range(ns) if round_of[j2] < round_of[j]]
+        if in_pool:
+            if info["exception"] is not None and exc_round is not None and exc_round < round_of[j]:
+                res.count("probe:inprocess_batch_aborted_by_exception")
+                res.event("mgr", name, "not_started", None)
+                continue
+            if call not in executed:
                 # the pool was terminated (left the with-block) before this task's completion had been waited for
                 res.count("probe:task_dropped_at_terminate")
                 res.event("mgr", name, "pool_task_dropped", None)
                 if rec is not None:
-                    raise HarnessError(f"task {j} left a result although SimPool never executed it")
-                res.violate(ORACLE, "pool_task_dropped:no_result_under_manager", strategy=name, task=j,
+                    raise HarnessError(f"task {call} left a result although SimPool never executed it")
+                res.violate(ORACLE, "pool_task_dropped:no_result_under_manager", strategy=name, task=call,
                             note="Pool.__exit__ terminates the pool; the task had not finished at the moment the manager stopped waiting")
                 any_diff = True
                 continue
-            w, kth = executed[j]
+            w, kth = executed[call]
             path = "pool_fresh_worker" if kth == 0 else "pool_reused_worker"
             if rec is not None and rec["pid"] != pids[w]:
                 raise HarnessError(f"strategy {name} ran in pid {rec['pid']}, scheduler assigned worker {w} (pid {pids[w]})")
@@ -801,9 +850,10 @@ def _judge(res, scenario, order, threads, alone, alone_info, info, got, k):
             path = "inprocess_first" if j == 0 else "inprocess_later"
             if rec is not None and rec["pid"] != info["pid"]:
                 raise HarnessError("in-process strategy ran in another process")
-        # neighbours that ran before this strategy in the same process
-        if pool_path:
-            before = [order[j2] for j2 in range(ns) if j2 in executed and executed[j2][0] == w and executed[j2][1] < kth]
+        # neighbours that ran before this strategy in the same process (or, for a pool worker, in the process it was forked from)
+        if in_pool:
+            first = sum(1 for j2 in range(ns) if round_of[j2] < round_of[j])
+            before = earlier_rounds + [order[first + c2] for c2 in range(sizes[round_of[j]]) if c2 in executed and executed[c2][0] == w and executed[c2][1] < kth]
         else:
             before = order[:j]
         pred_left = any(alone.get(p) and any(v for v in alone[p]["held"].values()) for p in before)
@@ -815,7 +865,7 @@ def _judge(res, scenario, order, threads, alone, alone_info, info, got, k):
             # carve-out: an exception escaping a strategy aborts an in-process batch (plain Python semantics)
             res.count("probe:inprocess_batch_aborted_by_exception")
             continue
-        diff = _compare(res, scenario, i, path, alone[i], rec, alone_info[i], info, task=j if pool_path else None)
+        diff = _compare(res, scenario, i, path, alone[i], rec, alone_info[i], info, task=call if in_pool else None)
         any_diff = any_diff or diff
         res.state((path, min(ns, 4), min(threads, 3), bool(before), pred_left, pred_noisy, bool(strategies[i].get("noisy")), "diff" if diff else "same"))
     if left_open:
@@ -838,7 +888,7 @@ def _compare(res, scenario, i, path, ref, rec, ref_info, info, task=None):
         t1 = None
         if info is not None:
             if task is not None:
-                t1 = next((e[3] for e in info["log"] if e[0] == "complete" and e[1] == task), None)
+                t1 = next((e[3] for e in info["log"] if e[0] == "complete" and e[1] == info["task_of"].get(task, task)), None)
             else:
                 t1 = (info["exception"] or {}).get("type")
         res.count("probe:strategy_crashed_both")
@@ -852,7 +902,7 @@ def _compare(res, scenario, i, path, ref, rec, ref_info, info, task=None):
     if rec is None:
         exc = None
         if info is not None:
-            exc = info["exception"] if task is None else next((e[3] for e in info["log"] if e[0] == "complete" and e[1] == task), None)
+            exc = info["exception"] if task is None else next((e[3] for e in info["log"] if e[0] == "complete" and e[1] == info["task_of"].get(task, task)), None)
         res.violate(ORACLE, f"{path}:no_result_under_manager", strategy=name, manager_exception=exc)
         return True
     whats = []
@@ -898,8 +948,21 @@ def shrink_candidates(sc):
             del c["strategies"][drop]
             c["program"] = [dict(o, s=o["s"] - (1 if o["s"] > drop else 0)) for o in c["program"] if o["s"] != drop]
             c["sched"]["order"] = [x - (1 if x > drop else 0) for x in c["sched"]["order"] if x != drop]
+            if c["sched"].get("rounds"):  # keep the round structure: the dropped strategy leaves its round
+                at = sc["sched"]["order"].index(drop)
+                sizes, acc = list(c["sched"]["rounds"]), 0
+                for r, size in enumerate(sizes):
+                    if at < acc + size:
+                        sizes[r] -= 1
+                        break
+                    acc += size
+                c["sched"]["rounds"] = [x for x in sizes if x > 0]
             yield c
     sd = sc["sched"]
+    if sd.get("rounds"):
+        c = copy.deepcopy(sc)
+        c["sched"].pop("rounds")
+        yield c
     if sd["order"] != sorted(sd["order"]):
         c = copy.deepcopy(sc)
         c["sched"]["order"] = sorted(sd["order"])
@@ -945,15 +1008,18 @@ TECHNIQUE = (
     "model driven by the seed; reference = the same strategy alone; minimised replay"
 )
 ASSUMPTIONS = [
-    "worlds are Uniswap-only (1-2 pools of one token pair); the manager code under test is market-agnostic",
+    "about 55 % of the worlds are Uniswap worlds (1-2 pools of one token pair, 2-10 strategies with programs of their own); the others borrow the world and a base program from the generators of the other families (Aave incl. liquidations, Squeeth vault + its pool with an LP lent as collateral, Deribit alone or beside a minutely pool incl. expiries, GMX v1 / v2) and give every strategy a seeded variation of it (sub-sample, bars shifted)",
+    "the configuration's market objects carry no data in 70 % of the scenarios (as in docs/source/concurrent.md) and their frames in the others",
+    "about a fifth of the batches are split into 2-3 consecutive manager runs over the same configuration and data objects in one process; at most one of them takes the pool path (multiprocessing's start method can be set once per process, a second pool run in one process raises before anything runs - not a C19 matter)",
+    "SimPool models apply_async, map / starmap and their _async forms (chunks of ceil(n / 4p) calls pickled as one object and run back to back by one worker, as Pool._map_async does); imap is not modelled (HARNESS-ERROR if the manager used it)",
     "an exception escaping a strategy's bar loop aborts an in-process batch (plain Python semantics): strategies that were therefore never started are not compared (probe inprocess_batch_aborted_by_exception)",
     "the real multiprocessing.Pool internals are replaced by SimPool for the controlled runs: one task in flight at a time, every schedule produced is one a FIFO fork pool can produce; truly simultaneous execution is not explored (workers are isolated by the kernel, results leave only through files)",
     "results are observed the way production code can: Strategy.finalize() pickles account_status_df, the AccountStatus rows, the action log and the final positions",
     "a noisy neighbour only uses the public API: open positions, Strategy.add_column (new column, or overwriting an input column), Market.open hook",
 ]
 LEVEL_TEXT = (
-    "seeded exploration of (world x 2-6 strategy programs x threads 1..6 x order permutation x task-to-worker assignment x "
-    "worker re-use x noisy neighbours) through the real BacktestManager in both the in-process and the (simulated-schedule, "
+    "seeded exploration of (world of any market family x 2-10 strategy programs x threads 1..6 x order permutation x task-to-worker "
+    "assignment x worker re-use x consecutive manager runs x noisy and failing neighbours) through the real BacktestManager in both the in-process and the (simulated-schedule, "
     "really forked) pool path; every strategy's account history, action log and final positions are compared exactly "
     "with the same strategy run alone. Sampling, not proof."
 )
